@@ -953,7 +953,7 @@ func (obj *Package) DefLambda(name string, lam *Lambda, fc func(args List) Objec
 			Kind:   kind,
 		}
 		obj.funcs[name] = &fi
-		if vv := obj.vars[name]; vv != nil && Unbound == vv.Val && vv.Export {
+		if vv := obj.vars[name]; vv != nil && vv.Pkg == obj && Unbound == vv.Val && vv.Export {
 			// The name was exported before the function was defined. The
 			// function takes the place of the symbol here and in the
 			// packages using this one.
